@@ -52,49 +52,38 @@ Proof.
      apply write_scalar_finite; [eapply scalar_fvalue_finite; exact Es | exact Hst]).
 Qed.
 
-(* the array branches: finite only if every element of the array is *)
-Definition scalar_finite (x : scalar num) : bool := match x with SNum n => nis_finite N n | _ => true end.
-Definition array_finite (a : array num) : Prop := forall row x, In row a -> In x row -> scalar_finite x = true.
-Definition result_finite (r : value) : Prop := match r with VArray a => array_finite a | _ => True end.
+(* the array branches (since /repo e9b497e): every element goes through afv / asv, which carry the guard *)
+Lemma afv_finite x : fv_finite N (afv N x) = true.
+Proof. destruct x; cbn; auto. destruct (nis_finite N n) eqn:E; cbn; auto. Qed.
+Lemma asv_finite x : sv_finite N (asv N x) = true.
+Proof. destruct x; cbn; auto. destruct (nis_finite N n) eqn:E; cbn; auto. Qed.
 
-Lemma afv_finite x : scalar_finite x = true -> fv_finite N (afv N x) = true.
-Proof. destruct x; cbn; auto. Qed.
-Lemma asv_finite x : scalar_finite x = true -> sv_finite N (asv N x) = true.
-Proof. destruct x; cbn; auto. Qed.
-Lemma get_value_in (a : array num) r c x : get_value_from_array a r c = Some x -> exists row, In row a /\ In x row.
+(* THE SINK THEOREM, full: for EVERY result, scalar or array, whatever produced it *)
+Theorem write_finite c cell r st st' :
+  write N c cell r st = Some st' -> finite_store N st -> finite_store N st'.
 Proof.
-  unfold get_value_from_array. destruct (_ || _); [discriminate|].
-  destruct (nth_error a (Z.to_nat (r - 1))) as [row|] eqn:E; [|discriminate].
-  intro H. exists row. split; eapply nth_error_In; eassumption.
-Qed.
-
-Theorem write_finite_partial c cell r st st' :
-  result_finite r -> write N c cell r st = Some st' -> finite_store N st -> finite_store N st'.
-Proof.
-  intros Hr Hw Hst. destruct r as [| | | | | | |a]; try (eapply write_scalar_branch_finite; [|exact Hw|exact Hst]; intro Hx; exact Hx).
-  cbn [result_finite] in Hr. unfold write in Hw. destruct (formula_of cell) as [f|]; [|inversion Hw; subst; exact Hst].
+  intros Hw Hst. destruct r as [| | | | | | |a]; try (eapply write_scalar_branch_finite; [|exact Hw|exact Hst]; intro Hx; exact Hx).
+  unfold write in Hw. destruct (formula_of cell) as [f|]; [|inversion Hw; subst; exact Hst].
   destruct ((arr_rows a =? 0)%nat || (arr_cols a =? 0)%nat).
   { injection Hw as <-. apply write_scalar_finite; [reflexivity | exact Hst]. }
-  assert (Hnode : forall rr cc x, get_value_from_array a rr cc = Some x -> scalar_finite x = true).
-  { intros rr cc x Hx. destruct (get_value_in _ _ _ _ Hx) as [row [H1 H2]]. eapply Hr; eassumption. }
   destruct cell as [| | | | |f0 v0|dyn w h f0 v0|]; cbn [formula_of] in *.
   1-5,8: (inversion Hw; subst; apply finite_set_cont; [exact Hst|];
           cbn [content_finite]; destruct ((_ =? 1) && (_ =? 1)); [|reflexivity];
-          destruct (get_value_from_array a 1 1) eqn:Eg; [apply afv_finite; eapply Hnode; exact Eg | reflexivity]).
+          destruct (get_value_from_array a 1 1) eqn:Eg; [apply afv_finite | reflexivity]).
   - inversion Hw; subst; apply finite_set_cont; [exact Hst|];
           cbn [content_finite]; destruct ((_ =? 1) && (_ =? 1)); [|reflexivity];
-          destruct (get_value_from_array a 1 1) eqn:Eg; [apply afv_finite; eapply Hnode; exact Eg | reflexivity].
+          destruct (get_value_from_array a 1 1) eqn:Eg; [apply afv_finite | reflexivity].
   - destruct dyn.
     + destruct (_ || _) in Hw; [injection Hw as <-; first [apply write_scalar_finite; [reflexivity | exact Hst] | apply finite_set_cont; [exact Hst | reflexivity]]|].
       destruct (existsb _ _) in Hw; [injection Hw as <-; first [apply write_scalar_finite; [reflexivity | exact Hst] | apply finite_set_cont; [exact Hst | reflexivity]]|].
       injection Hw as <-. apply fold_left_inv; [|exact Hst]. intros s d Hs.
       destruct (get_value_from_array a _ _) eqn:Eg; [|exact Hs].
       destruct (is_anchor c d); apply finite_set_cont; try exact Hs; cbn [content_finite];
-        [apply afv_finite | apply asv_finite]; eapply Hnode; exact Eg.
+        [apply afv_finite | apply asv_finite].
     + injection Hw as <-. apply fold_left_inv; [|exact Hst]. intros s d Hs.
       destruct (is_anchor c d); apply finite_set_cont; try exact Hs; cbn [content_finite];
         destruct (get_value_from_array a _ _) eqn:Eg; try reflexivity;
-        [apply afv_finite | apply asv_finite]; eapply Hnode; exact Eg.
+        [apply afv_finite | apply asv_finite].
 Qed.
 
 (* the typed path (after /repo 6e3cec0): a recognised value that is not finite is stored as text *)
@@ -107,30 +96,29 @@ Qed.
 
 End Sink.
 
-(* ---- refutations, by computation with the bounded toy numbers (overflow = non-finite) ---- *)
+(* ---- the former refutations (F09, F09b), now examples of the guard; bounded toy numbers (overflow = non-finite) ---- *)
 Definition bz (z : Z) : option Z := Some z.
 Definition A1 : cref := mkref 0 1 1.
 (* ={MAX,1}*10 as a dynamic formula in A1, spilling to B1 *)
 Definition wb_array : workbook (num:=option Z) :=
   [(A1, CArrayFormula true 1 1 (EBin OMul (EArray [[SNum (bz zmax); SNum (bz 1)]]) (ENum (bz 10))) FUnevaluated)].
-Lemma refuted_array_dynamic :
-  no_nonfinite_b BOps [A1; mkref 0 1 2] (store_of wb_array) = true /\
-  no_nonfinite_b BOps [A1; mkref 0 1 2] (evaluate BOps [A1] wb_array) = false.
-Proof. vm_compute. split; reflexivity. Qed.
+Lemma guarded_array_dynamic :
+  no_nonfinite_b BOps [A1; mkref 0 1 2] (evaluate BOps [A1] wb_array) = true /\
+  value_at (evaluate BOps [A1] wb_array) A1 = VErr ENUM /\ value_at (evaluate BOps [A1] wb_array) (mkref 0 1 2) = VNum (Some 10).
+Proof. vm_compute. repeat split; reflexivity. Qed.
 (* the same formula entered as a CSE formula over A1:B1 *)
 Definition wb_cse : workbook (num:=option Z) :=
   [(A1, CArrayFormula false 2 1 (EBin OMul (EArray [[SNum (bz zmax); SNum (bz 1)]]) (ENum (bz 10))) FUnevaluated);
    (mkref 0 1 2, CString [])].
-Lemma refuted_array_cse :
-  no_nonfinite_b BOps [A1; mkref 0 1 2] (store_of wb_cse) = true /\
-  no_nonfinite_b BOps [A1; mkref 0 1 2] (evaluate BOps [A1] wb_cse) = false.
-Proof. vm_compute. split; reflexivity. Qed.
+Lemma guarded_array_cse :
+  no_nonfinite_b BOps [A1; mkref 0 1 2] (evaluate BOps [A1] wb_cse) = true /\
+  value_at (evaluate BOps [A1] wb_cse) A1 = VErr ENUM /\ value_at (evaluate BOps [A1] wb_cse) (mkref 0 1 2) = VNum (Some 10).
+Proof. vm_compute. repeat split; reflexivity. Qed.
 (* a plain formula cell whose result is a 1x1 array: the coercion at model.rs:1066 *)
 Definition wb_1x1 : workbook (num:=option Z) :=
   [(A1, CFormula (EBin OMul (EArray [[SNum (bz zmax)]]) (ENum (bz 10))) FUnevaluated)].
-Lemma refuted_coerce_1x1 :
-  no_nonfinite_b BOps [A1] (store_of wb_1x1) = true /\
-  no_nonfinite_b BOps [A1] (evaluate BOps [A1] wb_1x1) = false.
+Lemma guarded_coerce_1x1 :
+  no_nonfinite_b BOps [A1] (evaluate BOps [A1] wb_1x1) = true /\ value_at (evaluate BOps [A1] wb_1x1) A1 = VErr ENUM.
 Proof. vm_compute. split; reflexivity. Qed.
 (* the scalar form of the same computation is caught by the safety belt *)
 Definition wb_scalar : workbook (num:=option Z) := [(A1, CFormula (EBin OMul (ENum (bz zmax)) (ENum (bz 10))) FUnevaluated)].
